@@ -2,13 +2,13 @@
 
 TRANSLATED = {
     "C13": "pyramid.py position algebra and generators re-translated into Gallina on every run (harness/py2coq.py) and proved equal to the model",
-    "C08": "study.py StudyTiling re-translated into Gallina on every run (harness/py2coq.py) and proved equal to the model",
+    "C08": "study.py StudyTiling re-translated into Gallina on every run (harness/py2coq.py) and proved equal to the model; builder.py Builder.prepare_study_tiling/execute_study_tiling/tile_base_as_study re-translated into scripts of calls and proved equal to the model scripts",
     "C02": "cli.py cascade_impl re-translated into a Gallina decision tree of calls on every run (harness/py2coq.py) and proved equal to the model of the command under every valuation of its settings",
     "C03": "cli.py transform_impl re-translated into a Gallina decision tree of calls on every run (harness/py2coq.py) and proved equal to the model of the command under every valuation of its settings",
     "C11": "cli.py tile_allsky_impl re-translated into a Gallina decision tree of calls on every run (harness/py2coq.py) and proved equal to the model of the command under every valuation of its settings",
     "C20": "cli.py tile_multi_tan_impl re-translated into a Gallina decision tree of calls on every run (harness/py2coq.py) and proved equal to the model of the command",
     "C07": "fits_tiler.py FitsTiler._tile_toast re-translated into a Gallina script of calls on every run (harness/py2coq.py) and proved equal to the model script",
-    "C17": "pyramid.py PyramidIO tile naming re-translated into Gallina on every run (harness/py2coq.py) and proved equal to the model; cli.py tile_wwtl_impl re-translated into a Gallina decision tree of calls (assigned calls included) and proved equal to the model of the command under every valuation of its settings",
+    "C17": "pyramid.py PyramidIO tile naming re-translated into Gallina on every run (harness/py2coq.py) and proved equal to the model; cli.py tile_wwtl_impl re-translated into a Gallina decision tree of calls (assigned calls included) and proved equal to the model of the command under every valuation of its settings; builder.py Builder.__init__/set_name/prepare_study_tiling/execute_study_tiling/tile_base_as_study re-translated into scripts of attribute stores and calls and proved equal to the model scripts",
     "C06": "cli.py tile_healpix_impl re-translated into a Gallina script of calls on every run (harness/py2coq.py) and proved equal to the model of the command",
 }
 
